@@ -5,6 +5,7 @@ package mustache
 
 // ---- rendering (C03: a rendering or an error, never a panic; C19: rendering writes nothing) ------------------------
 //@ func (c *MustacheTemplate) GetVariable
+//@   tags C03, C19
 //@   requires c != nil
 //@   assigns nothing
 //@   nopanic
@@ -41,6 +42,7 @@ package mustache
 //
 // ---- setting a template (C03) -------------------------------------------------------------------------------------
 //@ func (c *MustacheTemplate) CreateVariables
+//@   tags C03
 //@   requires c != nil && c.parser != nil && (variables != nil ==> deref(variables) != nil)
 //@   nopanic
 //@   loop 0
